@@ -112,7 +112,7 @@ def run(ck, fx, cg, tier):
 PURE_OPS = {"Literal", "Drop", "GetLocal"}   # cannot fault at run time: leaving them out changes nothing observable
 
 
-def _no_elision(ck, fx):
+def _no_elision(ck, fx, rule="R10.elide", only=None, floor=18):
     """A fault is detected by the instruction that performs the undefined operation (get global on an unknown name,
     call function / call method slot, get / set field, array, print …). "Execution stops there" therefore needs that
     instruction to exist even when the construct's value is not used: `keep_result` may decide whether the value is
@@ -121,7 +121,7 @@ def _no_elision(ck, fx):
     from .c02 import templates, frame_label, all_items
     from ..template import stream, is_ok_result
     T = templates(fx)
-    if not ck.anchor("R10.elide", "compile_into templates", T):
+    if not ck.anchor(rule, "compile_into templates", T):
         return
 
     def sig(items):
@@ -138,7 +138,7 @@ def _no_elision(ck, fx):
         return tuple(out)
 
     n = 0
-    variants = sorted({v for v, k in T})
+    variants = sorted({v for v, k in T if only is None or v in only})
     for v in variants:
         sigs = {}
         bad = None
@@ -150,16 +150,16 @@ def _no_elision(ck, fx):
             sigs[keep] = {sig(stream(p["eff"])) for p in ent[1] if is_ok_result(p)}
         n += 1
         if bad:
-            ck.ob("R10.elide", v, False, "", bad)
+            ck.ob(rule, v, False, "", bad)
             continue
         missing = sigs[True] - sigs[False]
         extra = sigs[False] - sigs[True]
         ok = not missing and not extra
-        ck.ob("R10.elide", v, ok, "",
+        ck.ob(rule, v, ok, "",
               "keep=false compiles the same faulting instructions and children as keep=true (%d shape(s))" % len(sigs[True]) if ok else
               "with the value discarded the arm compiles %s where the value-keeping form compiles %s: an undefined operation in a discarded position is not executed, so the program runs past the fault" % (
                   [list(x) for x in sorted(extra, key=repr)] or "nothing else", [list(x) for x in sorted(missing, key=repr)]))
-    ck.floor("R10.elide", "AST kinds compared", n, 18)
+    ck.floor(rule, "AST kinds compared", n, floor)
 
 
 def _short_term(t):
@@ -189,8 +189,13 @@ def _recursion(ck, fx, cg, reach):
             if derived:
                 ck.ob("R10.recursion", "scc:derive:" + names[0], True, "", "derive-generated structural recursion over the AST (bounded by AST depth): %s" % names[:3], nontrivial=False)
                 continue
+            ok_s, why_s = _structural_over_ast(fx, cg, comp)
+            if ok_s:
+                ck.ob("R10.recursion", "scc:structural:" + names[0], True, loc(cg.bodies[comp[0]]),
+                      "structural recursion over the (owned, acyclic) AST — %s: bounded by the nesting depth of the source like compile_into: %s" % (why_s, names[:3]))
+                continue
             ck.ob("R10.recursion", key, False, loc(cg.bodies[comp[0]]),
-                  "unlisted recursive component (no bound argument on file): %s" % names)
+                  "unlisted recursive component (no bound argument on file; %s): %s" % (why_s, names))
             continue
         seen.add(label[0])
         if label[0] == "compile":
@@ -208,6 +213,99 @@ def _recursion(ck, fx, cg, reach):
     ck.anchor("R10.recursion", "eval_opcode", eo or None)
     in_cycle = any(eo and eo[0] in comp for comp in sccs)
     ck.ob("R10.recursion", "eval_opcode not recursive", not in_cycle, "", "FML calls push frames on a Vec; eval_opcode is in %s SCC" % ("an" if in_cycle else "no"))
+
+
+TREE_TYPES = ("parser::AST",)
+HEAP_TYPES = ("bytecode::heap::", "HeapIndex", "Pointer")
+
+
+def _structural_over_ast(fx, cg, comp):
+    """Every function of the component takes the syntax tree (and nothing from the heap), and every cycle of calls
+    inside the component passes, at least once, a *component* of that tree — a pattern / closure / loop binding
+    rather than the caller's own parameter. The AST is an owned tree of Boxes and Vecs, so every cycle descends."""
+    members = {cg.path[d] for d in comp}
+    n_calls = 0
+    same = {}          # caller -> callees reached with the caller's own tree parameter (no descent on that edge)
+    for d in comp:
+        hb = fx.hir_by_did.get(d)
+        if hb is None:
+            if "::{closure" in cg.path[d] and cg.path[d].split("::{closure")[0] in members:
+                continue     # closures are analysed inside their parent's body
+            return False, "%s has no HIR" % cg.path[d]
+        ptys = [fx.tyname(p.get("ty")) or "" for p in hb["params"]]
+        if not any(any(t in ty for t in TREE_TYPES) for ty in ptys):
+            return False, "%s does not take the syntax tree" % hb["path"]
+        if any(any(h in ty for h in HEAP_TYPES) for ty in ptys):
+            return False, "%s also takes heap values" % hb["path"]
+        param_lids = set()
+        for p in hb["params"]:
+            for q, _ in _walk_pat(p):
+                if q.get("k") == "Binding":
+                    param_lids.add(q["lid"])
+        for n, ps in walk_body(hb):
+            if n.get("k") not in ("Call", "MethodCall"):
+                continue
+            callee = callee_name(n) if callee_name(n) in members else (n.get("callee") or {}).get("inst")
+            if callee not in members:
+                continue
+            n_calls += 1
+            args = ([n["recv"]] if n.get("k") == "MethodCall" else []) + list(n.get("args", []))
+            tree_args = [a for a in args if any(t in (fx.ty(a) or "") or t in (fx.aty(a) or "") for t in TREE_TYPES)]
+            if not tree_args:
+                return False, "a recursive call in %s passes no syntax tree" % hb["path"]
+            for a in tree_args:
+                root = _root_local(a)
+                if root is None:
+                    return False, "a recursive call in %s passes a tree that is not a binding" % hb["path"]
+                if root in param_lids:
+                    same.setdefault(hb["path"], set()).add(callee)
+    # a cycle made only of non-descending edges would recurse on the same node for ever
+    state = {}
+
+    def cyclic(f):
+        if state.get(f) == 1:
+            return True
+        if state.get(f) == 2:
+            return False
+        state[f] = 1
+        for g in same.get(f, ()):
+            if cyclic(g):
+                return True
+        state[f] = 2
+        return False
+    for f in list(same):
+        if cyclic(f):
+            return False, "a cycle of calls through %s passes the same tree node on unchanged" % f
+    return n_calls > 0, "%d recursive call(s); every cycle descends to a sub-tree binding" % n_calls
+
+
+def _walk_pat(p, ps=()):
+    yield p, ps
+    for key in ("pat", "sub"):
+        if isinstance(p.get(key), dict):
+            yield from _walk_pat(p[key], ps + (p,))
+    for x in p.get("pats", []) or []:
+        if isinstance(x, dict):
+            yield from _walk_pat(x, ps + (p,))
+    for f in p.get("fields", []) or []:
+        if isinstance(f, dict) and isinstance(f.get("pat"), dict):
+            yield from _walk_pat(f["pat"], ps + (p,))
+
+
+def _root_local(n):
+    n = peel(n)
+    while n.get("k") in ("AddrOf", "Unary", "Field", "Index", "MethodCall", "Cast"):
+        if n.get("k") == "MethodCall":
+            if n["name"] not in ("as_ref", "deref", "as_deref", "borrow", "clone", "as_mut"):
+                return None
+            n = peel(n["recv"])
+        elif n.get("k") == "Field" or n.get("k") == "Index":
+            n = peel(n["base"])
+        else:
+            n = peel(n["e"])
+    if n.get("k") == "Path" and n["res"].get("k") == "Local":
+        return n["res"]["lid"]
+    return None
 
 
 def _parent_construction_only(fx):
